@@ -5,6 +5,7 @@ from ..ast import strip, flat_stmts, calls, nodes, is_param, is_local, is_this_m
 from ..ir import walk
 from ..report import AnalysisBroken
 from .. import ownership as own
+from .. import api as apimod
 
 LEVEL = 'other'
 
@@ -134,12 +135,29 @@ def run(ctx, prog):
             stores = [n for n in walk(f[0].body) if (n.get('k') == 'bin' and n['op'] == '=') or (n.get('k') == 'call' and n.get('n') in ('assign', 'operator='))]
             ctx.ob('C12.H5', '%s|%s' % (fn_name, sc), bool(reads) and len(stores) == 1, f[0].where, '%s does not copy %s to its argument' % (fn_name, member),
                    sample='%s copies %s' % (fn_name, member))
-        for api, helper in (('masa_get_name', 'return_name'), ('masa_get_dimension', 'return_dim')):
-            f = [x for x in prog.functions if x.q == 'MASA::%s<%s>' % (api, scalar)]
-            ctx.require(len(f) == 1, '%s<%s> not found' % (api, scalar))
-            c = [c for c in calls(f[0].body, name=helper)]
-            ok = len(c) == 1 and is_param(c[0]['args'][0], 0)
-            ctx.ob('C12.H5', '%s|%s' % (api, sc), ok, f[0].where, '%s does not pass its argument to %s of the selected solution' % (api, helper), sample='%s -> get_ms().%s(arg)' % (api, helper))
+        # masa_get_name / masa_get_dimension: evaluated with callees inlined, the only store goes through the caller's pointer and
+        # its value is mmsname / dimension of the selected solution
+        ptr = apimod.pointer_path(prog, scalar)
+        for api_name, member in (('masa_get_name', 'mmsname'), ('masa_get_dimension', 'dimension')):
+            f = [x for x in prog.functions if x.q == 'MASA::%s<%s>' % (api_name, scalar)]
+            ctx.require(len(f) == 1, '%s<%s> not found' % (api_name, scalar))
+            E_, paths_ = apimod.evaluate(prog, f[0], scalar)
+            pn = f[0].params[0]['n']
+            want = ('sym', ptr + '*.' + member)
+            probs = []
+            good = [o for o in paths_ if o.kind != 'exit']
+            if not good:
+                probs.append('no returning path')
+            for o in good:
+                v = o.mem.get(pn)
+                st = [e for e in apimod.flat(o.events) if e[0] == 'write-through' and e[1] == ('sym', pn)]
+                if v is None and st and len(st[-1]) > 3:
+                    v = st[-1][3]
+                if v is not None and v[0] == 'call' and v[1] in ('container:assign', 'container:operator=') and len(v[2]) == 2:
+                    v = v[2][1]
+                if v != want:
+                    probs.append('*%s receives `%s`, expected %s of the selected solution' % (pn, terms.fmt(v)[:50] if v else 'nothing', member))
+            ctx.ob('C12.H5', '%s|%s' % (api_name, sc), not probs, f[0].where, '%s: %s' % (api_name, '; '.join(probs[:2])), sample='%s -> *arg = selected.%s' % (api_name, member))
     # distinct registries (shared with C10.P5)
     g = [q for q in prog.vars if 'masa_master_' in q]
     ctx.ob('C12.H4', 'two-globals', len(g) == 2 and len(set(prog.vars[q]['t'] for q in g)) == 2, 'src/masa_core.cpp', 'registry globals: %s' % g, sample=str(sorted(g)))
